@@ -61,6 +61,9 @@ type World struct {
 	gidClient map[int64]int
 	// ConfigHistory is every successfully installed config value, in store order.
 	ConfigHistory [][]byte
+	// SkipAuth disables the authenticity monitors (worlds whose server is not one of Logs); the
+	// config writes are then only checked for a valid signature and a non-decreasing size.
+	SkipAuth bool
 	// FailConfigWrite injects a non-conflict error into the n-th WriteConfig (1-based), 0 = never.
 	FailConfigWrite int
 	nConfigWrite    int
@@ -293,6 +296,20 @@ func (o *Ops) WriteConfig(file string, old, new []byte) error {
 	w.mu.Unlock()
 
 	// Monitors (outside the lock; the values are private copies).
+	if w.SkipAuth {
+		nNew, okNew := w.SignedSize(new)
+		nOld, okOld := int64(0), true
+		if len(old) > 0 {
+			nOld, okOld = w.SignedSize(old)
+		}
+		if !okNew {
+			w.viol("writeconfig-head-not-signed-by-key", map[string]any{"client": o.ID, "new": string(new)})
+		} else if okOld && nNew < nOld {
+			w.viol("writeconfig-size-decreased", map[string]any{"client": o.ID, "old_n": nOld, "new_n": nNew})
+		}
+		o.W.log(o.ID, "WriteConfig", file, fmt.Sprintf("ok n=%d", nNew))
+		return nil
+	}
 	nNew, onNew, okNew := w.HeadOn(new)
 	if file != w.Name+"/latest" {
 		w.viol("writeconfig-unknown-file", map[string]any{"file": file})
@@ -348,6 +365,7 @@ func (o *Ops) WriteCache(file string, data []byte) {
 	w.mu.Unlock()
 	rel := strings.TrimPrefix(file, w.Name)
 	switch {
+	case w.SkipAuth:
 	case !strings.HasPrefix(file, w.Name+"/"):
 		w.viol("writecache-unknown-file", map[string]any{"file": file})
 	case strings.HasPrefix(rel, "/lookup/"):
@@ -373,6 +391,32 @@ func (o *Ops) SecurityError(msg string) {
 	o.W.Security = append(o.W.Security, msg)
 	o.W.mu.Unlock()
 	o.W.log(o.ID, "Security", "", "")
+}
+
+// SignedSize returns the tree size of a head that carries a valid signature by the world's key.
+func (w *World) SignedSize(msg []byte) (int64, bool) {
+	text, ok := OpenText(msg, w.Key)
+	if !ok {
+		return 0, false
+	}
+	n, _, _, ok := ParseTreeText(text)
+	return n, ok
+}
+
+// Note adds a harness event (call/return markers) to the trace.
+func (w *World) Note(client int, op, arg, res string) Event { return w.log(client, op, arg, res) }
+
+// AllDelivered returns every lookup response handed to any client.
+func (w *World) AllDelivered() [][]byte {
+	w.mu.Lock()
+	defer w.mu.Unlock()
+	var out [][]byte
+	for _, m := range w.delivered {
+		for _, v := range m {
+			out = append(out, v)
+		}
+	}
+	return out
 }
 
 // Delivered returns the last lookup bytes handed to a client for a cache file name.
